@@ -188,6 +188,62 @@ func mutMatrix(args []string) {
 			place(jl.FUnion(u...), ct, allOps, allOps, false)
 		}
 	}
+	// descent in the mutators: targets three and four container levels below arrays (array -> object -> object -> key,
+	// array -> array -> object -> key, object -> array -> object -> array), no selected location inside another one
+	{
+		c := &ctr{n: 100}
+		deep := []jl.Node{
+			jl.Obj("x", jl.Arr(jl.Obj("y", jl.Obj("k", c.next())))),
+			jl.Arr(jl.Arr(jl.Obj("k", c.next()))),
+			jl.Obj("o", jl.Arr(jl.Obj("p", jl.Arr(jl.Obj("k", c.next()), jl.Obj("q", jl.Obj("k", c.next())))))),
+			jl.Arr(jl.Obj("a", jl.Obj("b", jl.Obj("k", c.next()))), jl.Arr(jl.Arr(jl.Obj("k", c.next())))),
+			jl.Obj("k", c.next(), "x", jl.Arr(jl.Arr(jl.Obj("y", jl.Arr(jl.Obj("k", c.next()), c.next()))))),
+			jl.Obj("m", jl.Arr(jl.Obj("n", jl.Arr(jl.Arr(c.next(), jl.Obj("k", jl.Arr(c.next()))))))),
+		}
+		dpaths := [][]jl.Frag{
+			{jl.FRoot(), jl.FDesc(), jl.FChild("k")}, {jl.FRoot(), jl.FDesc(), jl.FChild("y"), jl.FChild("k")}, {jl.FRoot(), jl.FChild("x"), jl.FDesc(), jl.FChild("k")},
+			{jl.FRoot(), jl.FDesc(), jl.FNth(0), jl.FChild("k")}, {jl.FRoot(), jl.FDesc(), jl.FWild(), jl.FChild("k")}, {jl.FRoot(), jl.FDesc(), jl.FChild("k"), jl.FNth(0)},
+			{jl.FRoot(), jl.FNth(0), jl.FDesc(), jl.FChild("k")}, {jl.FRoot(), jl.FDesc(), jl.FChild("q"), jl.FChild("k")}, {jl.FRoot(), jl.FDesc(), jl.FUnion("k", "zz")},
+		}
+		for _, d := range deep {
+			for _, p := range dpaths {
+				for _, cl := range calls(p, []string{"Set", "SetOne", "Del", "DelOne", "Modify", "ModifyOne", "Remove", "RemoveOne"}, false) {
+					emit(0, d, cl)
+				}
+			}
+		}
+	}
+	// the *One forms behind a fragment that selects several candidates of which the first one or two lack the rest of the path
+	{
+		mk := func(k int, objCont bool) jl.Node {
+			c := &ctr{n: 100}
+			els := []jl.Node{}
+			for j := 0; j < 4; j++ {
+				if j < k {
+					els = append(els, jl.Obj("x", jl.Int(1), "w", c.next()))
+				} else {
+					els = append(els, jl.Obj("x", jl.Int(1), "w", c.next(), "y", c.next()))
+				}
+			}
+			if objCont {
+				return jl.Obj("a", els[0], "b", els[1], "c", els[2], "d", els[3])
+			}
+			return jl.Arr(els...)
+		}
+		multi := []jl.Frag{jl.FFilter("eqk", "x", jl.Int(1)), jl.FWild(), jl.FUnion(0, 1, 2), jl.FUnion("a", "b", "c"), jl.FSlice(0, 3, A), jl.FDesc(), jl.FFilter("exk", "w", jl.Null())}
+		for _, k := range []int{1, 2} {
+			for _, oc := range []bool{false, true} {
+				for _, mf := range multi {
+					for _, cl := range calls([]jl.Frag{jl.FRoot(), mf, jl.FChild("y")}, allOps, false) {
+						emit(2, mk(k, oc), cl)
+					}
+					for _, cl := range calls([]jl.Frag{jl.FRoot(), jl.FChild("p"), mf, jl.FChild("y")}, []string{"SetOne", "DelOne", "ModifyOne", "RemoveOne"}, false) {
+						emit(3, jl.Obj("p", mk(k, oc), "q", jl.Int(9999)), cl)
+					}
+				}
+			}
+		}
+	}
 	// creation along child/index paths, and requests that cannot be served
 	c := &ctr{n: 100}
 	docs := []jl.Node{jl.Obj(), jl.Arr(), jl.Obj("a", jl.Obj("b", jl.Int(1))), jl.Obj("a", jl.Arr(c.next(), c.next())), jl.Obj("a", jl.Int(5)),
